@@ -400,13 +400,17 @@ macro_rules! impl_bytes_mut_utils {
         return Ok(core::ptr::NonNull::dangling());
       }
 
-      let align_offset = crate::align_offset::<T>(self.allocated.memory_offset + self.len as u32);
+      // the pointer returned by `as_mut_ptr` is relative to `ptr_offset`, and the whole `T` must fit
+      let start = self.allocated.ptr_offset as u64 + self.len as u64;
+      let align = mem::align_of::<T>() as u64;
+      let align_offset = (start + align - 1) & !(align - 1);
+      let end = self.allocated.ptr_offset as u64 + self.allocated.ptr_size as u64;
 
-      if align_offset > self.allocated.memory_offset + self.allocated.memory_size {
-        return Err(InsufficientBuffer::with_information((align_offset as u64 - self.len as u64 - self.allocated.memory_offset as u64), (self.allocated.memory_size as u64 - self.len as u64)));
+      if align_offset + mem::size_of::<T>() as u64 > end {
+        return Err(InsufficientBuffer::with_information(align_offset - start + mem::size_of::<T>() as u64, end - start));
       }
 
-      self.len = (align_offset - self.allocated.memory_offset) as usize;
+      self.len = (align_offset - self.allocated.ptr_offset as u64) as usize;
       // SAFETY: We have checked the buffer size, and apply the align
       Ok(unsafe {
         core::ptr::NonNull::new_unchecked(self.as_mut_ptr().add(self.len).cast::<T>())
